@@ -24,6 +24,20 @@ def parseCopyOp (ws : List String) : Option Copy.Op :=
     match x.toNat?, (cells.splitOn ",").mapM String.toInt? with
     | some x, some cs => some (.init x cs)
     | _, _ => none
+  -- `l x k7 c0.1 c2.0 …`: literal assignment, members are constants (`k<int>`) or cells (`c<var>.<off>`)
+  | "l" :: x :: srcs =>
+    let parse (t : String) : Option Copy.Src :=
+      if t.startsWith "k" then (t.drop 1).toString.toInt?.map Copy.Src.const
+      else if t.startsWith "c" then
+        match (t.drop 1).toString.splitOn "." with
+        | [v, o] => match v.toNat?, o.toNat? with
+          | some v, some o => some (.cell v o)
+          | _, _ => none
+        | _ => none
+      else none
+    match x.toNat?, srcs.mapM parse with
+    | some x, some ss => some (.lit x ss)
+    | _, _ => none
   | ["d", f, dst, sv, off, len] =>
     match f.toNat?, dst.toNat?, sv.toNat?, off.toNat?, len.toNat? with
     | some f, some dst, some sv, some off, some len => some (.defn f dst ⟨sv, off, len⟩)
